@@ -281,6 +281,13 @@ def js_agree(prog: Program) -> RuleResult:
             "the reader does not call _from_json of the class named by the tag with the mapping")
     r.check(len(gd) == 1 and tvar is not None and src(gd[0].args[0]) == tvar, "from_json#registry-key", site(rd, gd[0]) if gd else site(rd), src(gd[0]) if gd else "",
             "registry looked up by the resolved class", "the reader does not look the deserialiser up by the resolved class")
+    registry_exact(prog, r)
+    return r
+
+
+def registry_exact(prog: Program, r: RuleResult):
+    """The registry maps exactly the registered type to its (de)serialiser: one key for both tables, lookups are table.get(<the given type>).
+    Shared with C19: a lookup that also answers for subclasses or similar types returns a wrongly typed object instead of an error."""
     # registry: one key for both tables
     reg = prog.cls(MODQ + ".JSONSerializableTypeRegistry")
     rg = prog.method(reg.qual, "register", inherited=False)
@@ -299,15 +306,24 @@ def js_agree(prog: Program) -> RuleResult:
     for mname in ("get_serializer", "get_deserializer"):
         gm = prog.method(reg.qual, mname, inherited=False)
         rets = _returns(gm)
-        good = len(rets) == 1 and isinstance(rets[0].value, ast.Call) and call_name(rets[0].value) == "get" and src(rets[0].value.args[0]) == gm.params[1]
-        tables[mname] = src(rets[0].value.func.value) if good else None
-        r.check(good, f"JSONSerializableTypeRegistry.{mname}#lookup", site(gm), src(rets[0].value) if rets else "", "looked up by the given type", "lookup is not table.get(<type>)")
+        good, tbl = False, None
+        vals = [x.value for x in rets]
+        if len(vals) == 1 and isinstance(vals[0], ast.IfExp):  # T[k] if k in T else None
+            t = vals[0]
+            if isinstance(t.test, ast.Compare) and len(t.test.ops) == 1 and isinstance(t.test.ops[0], ast.In) and src(t.test.left) == gm.params[1] \
+                    and isinstance(t.body, ast.Subscript) and src(t.body.value) == src(t.test.comparators[0]) and src(t.body.slice) == gm.params[1] and src(t.orelse) == "None":
+                good, tbl = True, src(t.body.value)
+        elif len(vals) == 1 and isinstance(vals[0], ast.Call) and call_name(vals[0]) == "get" and vals[0].args and src(vals[0].args[0]) == gm.params[1] \
+                and (len(vals[0].args) == 1 or src(vals[0].args[1]) == "None"):
+            good, tbl = True, src(vals[0].func.value)
+        tables[mname] = tbl
+        r.check(good, f"JSONSerializableTypeRegistry.{mname}#lookup", site(gm), src(rets[0].value) if rets else "", "looked up by exactly the given type", "the lookup is not an exact lookup of the given type in one table (table.get(type) / table[type] if type in table else None): "
+                "a registry that answers for subclasses or similar types makes from_json return an object of a different class than the tag names")
     ser_tbl = next((k for k, (_, v) in stores.items() if v == p[2]), None)
     des_tbl = next((k for k, (_, v) in stores.items() if v == p[3]), None)
     r.check(tables.get("get_serializer") == ser_tbl and tables.get("get_deserializer") == des_tbl and ser_tbl != des_tbl,
             "JSONSerializableTypeRegistry#tables-agree", site(rg), f"{tables}", "getters read the table their half was stored in",
             "a getter reads a different table than register wrote")
-    return r
 
 
 def run(prog: Program, tier: str) -> List[RuleResult]:
